@@ -150,7 +150,7 @@ def ty_signed(t):
 
 
 class Interp:
-    def __init__(self, prog, max_leaves=1200, max_steps=700000, total_steps=1000000):
+    def __init__(self, prog, max_leaves=3500, max_steps=700000, total_steps=3000000):
         self.prog = prog
         self.max_leaves = max_leaves
         self.max_steps = max_steps
